@@ -385,3 +385,99 @@ Proof.
 Qed.
 
 End Correct.
+
+(* ---- packaged statements ------------------------------------------------------------------ *)
+
+Lemma c_wfb_parts nl : c_wfb nl = true ->
+  forallb (c_op_ok nl) (nets nl) = true /\ c_mems_ok nl = true.
+Proof. unfold c_wfb. intros H. apply andb_true_iff in H. exact H. Qed.
+
+Definition cwires_agree (nl : netlist) (v : wid -> Z) (cv : wid -> list Z) : Prop :=
+  forall x, In x (wires nl) ->
+    limbs_ok (width_of nl (wname x)) (cv (wname x)) /\ limbs_to_Z (cv (wname x)) = v (wname x).
+
+Theorem c_step_refines_wf nl dflt st cs ins :
+  wfb nl = true -> c_wfb nl = true -> RC nl st cs -> legal_ins nl ins ->
+  let '(v, st') := step nl dflt st ins in
+  let '(cv, cs') := c_step nl cs ins in
+  cwires_agree nl v cv /\ RC nl st' cs'.
+Proof.
+  intros Hwf Hcwf HR Hi. destruct (wfb_parts nl Hwf) as [H1 [H2 [H3 [H4 H5]]]].
+  destruct (c_wfb_parts nl Hcwf) as [C1 C2].
+  pose proof (c_step_refines nl dflt H1 H2 C2 H3 H4 C1 st cs ins HR Hi) as H.
+  destruct (step nl dflt st ins) as [v st'].
+  destruct (c_step nl cs ins) as [cv cs'].
+  destruct H as [HA HR']. split; [|exact HR'].
+  intros x Hx. rewrite forallb_forall in H5. specialize (H5 x Hx).
+  apply mem_in_In in H5. apply HA. exact H5.
+Qed.
+
+Theorem c_run_refines nl dflt : wfb nl = true -> c_wfb nl = true ->
+  forall inss st cs,
+  RC nl st cs -> Forall (legal_ins nl) inss ->
+  let '(vs, st') := run nl dflt st inss in
+  let '(cvs, cs') := c_run nl cs inss in
+  Forall2 (cwires_agree nl) vs cvs /\ RC nl st' cs'.
+Proof.
+  intros Hwf Hcwf. induction inss as [|ins rest IH]; intros st cs HR Hins; cbn [run c_run].
+  - auto.
+  - inversion Hins as [|? ? Hi Hrest]; subst.
+    pose proof (c_step_refines_wf nl dflt st cs ins Hwf Hcwf HR Hi) as Hs.
+    destruct (step nl dflt st ins) as [v st1].
+    destruct (c_step nl cs ins) as [cv cs1].
+    destruct Hs as [Hv HR1].
+    specialize (IH st1 cs1 HR1 Hrest).
+    destruct (run nl dflt st1 rest) as [vs st2].
+    destruct (c_run nl cs1 rest) as [cvs cs2].
+    destruct IH as [Hvs HR2]. cbv iota beta.
+    split; [constructor; assumption|assumption].
+Qed.
+
+(* the initial state: static register initialisers and initialize_mems().  CompiledSimulation
+   leaves unwritten memory words at 0 whatever default_value is (the sanctioned difference), so
+   the memories are related only when default_value = 0 or no word is left to the default. *)
+Definition legal_cmems (nl : netlist) (memmap : list (Z * list (Z * Z))) : Prop :=
+  forall m k d a v, find (fun p => fst p =? m) memmap = Some (k, d) -> assoc d a = Some v ->
+    inrange v (mem_dataw nl m).
+
+Lemma lassoc_map_ini w d a :
+  lassoc (map (fun kv : Z * Z => (fst kv, c_ini w (snd kv))) d) a
+  = match assoc d a with Some v => Some (c_ini w v) | None => None end.
+Proof.
+  induction d as [|[k v] r IH]; [reflexivity|].
+  cbn [map fst snd]. rewrite lassoc_cons. cbn [assoc]. destruct (k =? a); [reflexivity|exact IH].
+Qed.
+
+Lemma c_init_related nl regmap memmap :
+  forallb (fun x => 0 <=? wwidth x) (wires nl) = true -> c_mems_ok nl = true ->
+  legal_init nl 0 regmap -> legal_cmems nl memmap ->
+  RC nl (init_state nl 0 regmap memmap) (c_init nl 0 regmap memmap).
+Proof.
+  intros Hw Hm Hregs Hmems. split.
+  - intros r Hr. unfold c_init, init_state. cbn [cregs sregs]. unfold c_ini.
+    apply c_pack_ok; [apply width_nonneg; assumption|]. apply Hregs. assumption.
+  - intros m a. unfold c_memval, c_init, init_state. cbn [cmems smems].
+    pose proof (mem_dataw_nonneg nl Hm m) as Hdw.
+    destruct (find (fun p => fst p =? m) memmap) as [[k d]|] eqn:Ef.
+    + rewrite lassoc_map_ini. unfold assoc_d. destruct (assoc d a) as [v|] eqn:Ea.
+      * unfold c_ini. apply c_pack_ok; [assumption|]. apply (Hmems m k d a v Ef Ea).
+      * apply zeros_ok. assumption.
+    + cbn. apply zeros_ok. assumption.
+Qed.
+
+(* every wire, every cycle, every legal input sequence, every legal initial state (default 0) *)
+Theorem c_refines_spec nl regmap memmap inss :
+  wfb nl = true -> c_wfb nl = true ->
+  legal_init nl 0 regmap -> legal_cmems nl memmap -> Forall (legal_ins nl) inss ->
+  Forall2 (cwires_agree nl)
+    (fst (run nl 0 (init_state nl 0 regmap memmap) inss))
+    (fst (c_run nl (c_init nl 0 regmap memmap) inss)).
+Proof.
+  intros Hwf Hcwf Hregs Hmems Hins.
+  destruct (wfb_parts nl Hwf) as [H1 _]. destruct (c_wfb_parts nl Hcwf) as [_ C2].
+  pose proof (c_run_refines nl 0 Hwf Hcwf inss _ _
+                (c_init_related nl regmap memmap H1 C2 Hregs Hmems) Hins) as H.
+  destruct (run nl 0 (init_state nl 0 regmap memmap) inss) as [vs st'].
+  destruct (c_run nl (c_init nl 0 regmap memmap) inss) as [cvs cs'].
+  apply H.
+Qed.
